@@ -596,8 +596,37 @@ class Interp:
 
     # ---- statements
     def exec_block(self, stmts, frame):
+        inv = getattr(self, "_inv_loops", None)
+        if inv and stmts is inv[-1][0].body and not inv[-1][2]:
+            inv[-1][2] = True
+            self._carried_state_havocked(inv[-1][0], inv[-1][1], frame)
         for s in stmts:
             self.exec_stmt(s, frame)
+
+    def _carried_state_havocked(self, loop, snapshot, frame):
+        """the body of a loop verified by invariant is about to run for the ARBITRARY iteration: every local the loop carries from one
+        iteration to the next (assigned in the loop, read in the body before it is written) must have been replaced by the sidecar's
+        arbitrary state since the loop was entered. One that still holds its pre-loop object was not havocked - the sidecar does not
+        know this variable (a maintainer introduced or renamed it): the contract does not apply to this text (undecided, exit 2)"""
+        assigned = set()
+        for node in [loop.target] + list(loop.body) if isinstance(loop, ast.For) else list(loop.body):
+            for x in ast.walk(node):
+                if isinstance(x, ast.Name) and isinstance(x.ctx, ast.Store):
+                    assigned.add(x.id)
+        written, readfirst = set(), set()
+        if isinstance(loop, ast.For):
+            written |= {x.id for x in ast.walk(loop.target) if isinstance(x, ast.Name)}
+        for st in loop.body:
+            loads = {x.id for x in ast.walk(st) if isinstance(x, ast.Name) and isinstance(x.ctx, ast.Load)}
+            if isinstance(st, ast.AugAssign):
+                loads |= {x.id for x in ast.walk(st.target) if isinstance(x, ast.Name)}
+            readfirst |= loads - written
+            if isinstance(st, (ast.Assign, ast.AnnAssign, ast.AugAssign)):
+                written |= {x.id for x in ast.walk(st) if isinstance(x, ast.Name) and isinstance(x.ctx, ast.Store)}
+        exempt = getattr(self, "inplace_havoc", set())
+        for v in sorted(assigned & readfirst):
+            if v in snapshot and v in frame.locals and frame.locals[v] is snapshot[v] and v not in exempt:
+                raise Unsupported("the loop carries the local '%s' from one iteration to the next, and the sidecar's invariant does not cover it" % v)
 
     def exec_stmt(self, s, frame):
         m = getattr(self, "st_" + type(s).__name__, None)
@@ -806,7 +835,13 @@ class Interp:
             # here: the contract does not apply to this text (undecided), it is neither a crash nor a violation
             raise Unsupported("loop %s of %s is a %s statement; the sidecar's invariant is stated over a %s loop" % (
                 self.loop_ordinal(f, s), f.fname, type(s).__name__.lower(), want.__name__.lower()))
-        return spec.run(self, s, f)
+        if not hasattr(self, "_inv_loops"):
+            self._inv_loops = []
+        self._inv_loops.append([s, dict(f.locals), False])
+        try:
+            return spec.run(self, s, f)
+        finally:
+            self._inv_loops.pop()
 
     def st_Break(self, s, f):
         raise _Break()
